@@ -132,7 +132,11 @@ class _FunctionCall(object):
             # this reconstruction is quite costly. I wonder whether it's a
             # problem though.
 
-            _type_info = ctx.descriptor.in_message._type_info
+            # in bare mode the in_message is the argument class itself, which
+            # can have a parent class: get_serialization_instance() below
+            # aligns the values with the flat type info, so must this.
+            in_message = ctx.descriptor.in_message
+            _type_info = in_message.get_flat_type_info(in_message)
             ctx.in_object = [None] * len(_type_info)
             for i in range(len(args)):
                 ctx.in_object[i] = args[i]
